@@ -146,6 +146,9 @@ def check_storey_data(ctx, prog, rule="c03.storey"):
 def run(ctx):
     prog = ctx.prog
     check_storey_data(ctx, prog)
+    from ._c03geom import check_wall, check_shades
+    check_wall(ctx, prog)
+    check_shades(ctx, prog)
     lits = literals(prog)
     n = check_copy(ctx, lits)
     ctx.floor("c03.copy", "WinGeom literals", n, 1)
